@@ -511,6 +511,9 @@ class Interp:
         if hint_type is None:
             if not items:
                 et = None
+            elif any(isinstance(x, (VDictRec, VObj)) for x in items):
+                # elements without a symbolic encoding (dict literals / heap objects): concrete python-level list
+                return VPyList(items)
             else:
                 et = self.join_types([typeof(self.encodable(x)) for x in items])
         else:
@@ -585,7 +588,13 @@ class Interp:
             elif isinstance(v, ast.FormattedValue):
                 x = self.ev(v.value, env)
                 if v.format_spec is not None or v.conversion not in (-1, 115):
-                    sx = self.ver.opaque_str("fmt", x, self)
+                    # one uninterpreted function per (conversion, format spec): `{x:02d}` and `{x:03d}` must not be
+                    # identified with each other
+                    if v.format_spec is not None and any(isinstance(c, ast.FormattedValue) for c in ast.walk(v.format_spec)):
+                        raise Unsupported("f-string with a computed format spec")
+                    tag ="fmt_%s_%s" % (v.conversion, "".join(c if c.isalnum() else "_" for c in (
+                        ast.unparse(v.format_spec) if v.format_spec is not None else "")))
+                    sx = self.ver.opaque_str(tag, x, self)
                 else:
                     sx = self.to_str(x)
                 parts.append(sx.e)
@@ -618,6 +627,11 @@ class Interp:
             last = self.ev(sub, env)
             if i == len(n.values) - 1:
                 return last
+            if isinstance(n.op, ast.Or) and i == len(n.values) - 2 and isinstance(n.values[-1], ast.Constant) \
+                    and isinstance(n.values[-1].value, str) and isinstance(last, VStr):
+                # `s or "<literal>"` on a string: value-level (no path fork); the literal has no side effect and a
+                # str is falsy exactly when it is empty
+                return VStr(z3.If(last.e != z3.StringVal(""), last.e, z3.StringVal(n.values[-1].value)))
             # pure boolean fast path: remaining operands are side-effect free comparisons
             t = self.test(last)
             if isinstance(n.op, ast.And) and not t:
